@@ -33,7 +33,7 @@ REQUIRED = [
 
 _env = None
 NULL = gettext.NullTranslations()
-PH = re.compile(r"(?<!%)%\((\w+)\)s")
+PH = re.compile(r"(?<!%)%\(([\w-]+)\)s")  # a variable name may hold hyphens, like every Liquid identifier
 WSRUN = re.compile(r"\s+")
 
 
@@ -63,7 +63,7 @@ def classify(msg: str) -> str:
     """Mechanism id: does the message contain a % that is not part of a well-formed %(name)s placeholder?"""
     if re.search(r"%\{\{\s*[\w-]+\s*\}\}", msg):
         return "percent-directly-before-placeholder"  # tag bodies only
-    rest = re.sub(r"%\(\w+\)s", "", msg)
+    rest = re.sub(r"%\([\w-]+\)s", "", msg)
     if "%" in rest:
         return "literal-percent"
     if PH.search(msg):
@@ -164,7 +164,7 @@ def judge(ctx: core.Ctx, case: dict[str, Any]) -> None:
             allvars.setdefault("count", count)
         if case.get("outer"):
             # a placeholder the filter's own arguments do not name is looked up in the render context
-            allvars = {**{"you": "OUTER-YOU", "n": "OUTER-N"}, **allvars}
+            allvars = {**{"you": "OUTER-YOU", "n": "OUTER-N", "user-name": "OUTER-UN"}, **allvars}
         exp = fmt(chosen, allvars)
         o = drv.parse_and_render(e, src, data, use_async=case.get("async", False))
         norm = lambda s: s  # noqa: E731
@@ -183,7 +183,7 @@ def judge(ctx: core.Ctx, case: dict[str, Any]) -> None:
     ctx.ok((src, case.get("msg"), case.get("vars"), case.get("count"), case.get("plural")), nontrivial=("%" in msg or "count" in case or bool(vars_)))
 
 
-TOKENS = ["Hello", " ", "%", "%%", "%s", "%d", "%(you)s", "%(n)s", "%(count)s", "(", ")", "\n  ", "<b>", "{", "100%", "%(", ")s", "é"]
+TOKENS = ["Hello", " ", "%", "%%", "%s", "%d", "%(you)s", "%(n)s", "%(count)s", "(", ")", "\n  ", "<b>", "{", "100%", "%(", ")s", "é", "%(user-name)s"]
 TAG_TOKENS = ["Hello", " ", "%", "%%", "%s", "%(you)s", "(", ")", "\n  ", "<b>", "100%", "{{ you }}", "{{ n }}", "é", "  ", "\n\n", " \r\n \n\t", "{{ user-name }}"]
 COUNTS: list[Any] = [-1, 0, 1, 2, 5, "2", 1.0, None]
 
@@ -200,8 +200,10 @@ def cases(ctx: core.Ctx):
             msg = "".join(toks)
             f = ["t", "gettext", "ngettext", "pgettext", "npgettext"][idx % 5]
             c: dict[str, Any] = {"kind": "filter", "filter": f, "msg": msg, "literal": bool(idx % 3 == 0), "async": idx % 13 == 0}
+            if "%(user-name)s" in msg and idx % 3:
+                c.setdefault("vars", {})["user-name"] = ["Ann", 7, ""][idx % 3]
             if idx % 2:
-                c["vars"] = {"you": rng.choice(["Sue", "", "%s", 5, None])}
+                c.setdefault("vars", {})["you"] = rng.choice(["Sue", "", "%s", 5, None])
                 c["outer"] = idx % 4 == 1
                 c["nil_literal"] = idx % 8 == 1
             if f in ("ngettext", "npgettext") or (f == "t" and idx % 4 == 0):
